@@ -31,7 +31,10 @@ MANIFEST = {
             'identities must be a permutation of the input, ordered under '
             'the spec, stable for equal keys, None/missing keys first (last '
             'under /desc), reverse the exact mirror, and the caller list '
-            'untouched.',
+            'untouched.  Also: two-key sorts over Decimal / date and bool / '
+            'bytes keys, the sequence given as an expression, and a second '
+            'render of the same template and list after the keys of the '
+            'element objects were rotated in place.',
     'note': 'Trusted: the 30-line comparison model in this driver (Python '
             '<, str.lower for nocase).  The mutual order of None/missing '
             'keys is not checked, as the statement says.',
